@@ -42,6 +42,16 @@ pub struct Scenario {
     pub args: Args,
 }
 
+/// Variants of a content that differ from it only in the final newline or the line-ending style.
+fn content_variant(r: &mut Rng, c: &str) -> String {
+    match r.below(8) {
+        0 => c.strip_suffix('\n').unwrap_or(c).to_string(),
+        1 => c.replace('\n', "\r\n"),
+        2 => format!("{}\n", c),
+        _ => c.to_string(),
+    }
+}
+
 const CONTENTS: &[&str] = &[
     "#let x = 1\n",
     "#let   x=1\n",
@@ -94,12 +104,18 @@ fn gen_entry(r: &mut Rng, depth: usize) -> Entry {
                     // a link to a file that is not an eligible target itself
                     let target = r.pick(&["notes.txt", ".hidden.typ", "noext", "a.typ", "e.typ.bak"]).to_string();
                     if !es.iter().any(|(k, _)| *k == target) && target != name {
-                        es.push((target.clone(), Entry::File(r.pick(&CONTENTS[1..7]).as_bytes().to_vec())));
+                        let base = r.pick(&CONTENTS[1..7]);
+                        let c = content_variant(r, base);
+                        es.push((target.clone(), Entry::File(c.into_bytes())));
                     }
                     Entry::Symlink(target)
                 }
                 2 => Entry::File(big_content(r).into_bytes()),
-                _ => Entry::File(r.pick(CONTENTS).as_bytes().to_vec()),
+                _ => {
+                    let base = r.pick(CONTENTS);
+                    let c = content_variant(r, base);
+                    Entry::File(c.into_bytes())
+                }
             }
         };
         es.push((name, e));
@@ -145,7 +161,7 @@ pub fn scenario(idx: u64) -> Scenario {
             }
             Cmd::Files(ps)
         }
-        4 => Cmd::Stdin(if r.below(4) == 0 { big_content(&mut r) } else { r.pick(CONTENTS).to_string() }),
+        4 => Cmd::Stdin(if r.below(4) == 0 { big_content(&mut r) } else { let c = r.pick(CONTENTS); content_variant(&mut r, c) }),
         _ => match r.below(6) {
             0 | 1 => Cmd::FormatAll(None),
             2 => Cmd::FormatAll(Some(".".into())),
@@ -591,6 +607,8 @@ pub fn oracles(sc: &Scenario, o: &Observed) -> Vec<(&'static str, &'static str, 
                 Some(y) => {
                     if now != Some(y) {
                         f.push(("C15", "write", format!("{} should have been rewritten with the formatted text", p)));
+                        // C16: the in-place front ends must leave exactly the library's text
+                        f.push(("C16", "write", format!("{} does not hold the text the library returns after the in-place run", p)));
                     }
                 }
                 None => {
